@@ -188,11 +188,6 @@ def stepAllow (rel : Rel) (r : Int) (s : Step) : Int :=
   | .finalize => if s.bpNil then max 0 r else 0
   | _ => 0
 
-/-- what the steps of a walk allow at most -/
-def allowedMax (rel : Rel) (r : Int) : List Step → Int
-  | [] => 0
-  | s :: ss => max (stepAllow rel r s) (allowedMax rel r ss)
-
 /-- the user neither scales nor re-submits the update strategy during the walk -/
 def quiet (steps : List Step) : Bool := steps.all fun s => s.edit.replicas.isNone && s.edit.us.isNone
 
@@ -252,40 +247,35 @@ def editView (v : View) (e : Edit) : View :=
 def viewStep (v : View) (s : Step) (o : StepOut) : View :=
   if s.call = .submit ∧ o.res = .ok then editView v s.edit else v
 
-def trackView (v : View) : List Step → List StepOut → View
-  | s :: ss, o :: os => trackView (viewStep v s o) ss os
-  | _, _ => v
+/-- the step is a successful complete `Finalize` (`batchPartition = nil`) -/
+def isRelease (s : Step) (o : StepOut) : Bool := s.call == .finalize && s.bpNil && o.res == .ok
 
-def lastWl (d : Option Wl) : List StepOut → Option Wl
-  | [] => d
-  | [o] => o.wl
-  | _ :: os => lastWl d os
+/-- **C05 round trip** over `submit ; initialize ; (upgradeBatch | initialize | submit | finalize)* ; finalize(nil)` and
+    every other walk, faults included: after every step the workload still has the view its user gave it (`v` = the
+    view before the walk, followed through the admitted user updates), and after every successful complete
+    `Finalize` — in particular the last one — the rollout's knobs are released. -/
+def walkOK (v : View) : List Step → List StepOut → Bool
+  | s :: ss, o :: os =>
+    (match o.wl with
+     | some d' => view d' == viewStep v s o && (if isRelease s o then released d' else true)
+     | none => false) && walkOK (viewStep v s o) ss os
+  | _, _ => true
 
-/-- **C05 (the user's configuration survives)**: along every walk the workload's view is the user's -/
-def walkView (d0 : Wl) (steps : List Step) (outs : List StepOut) : Bool :=
-  match lastWl (some d0) outs with
-  | some d' => view d' == trackView (view d0) steps outs
-  | none => false
+def roundTrip (d0 : Wl) (steps : List Step) (outs : List StepOut) : Bool := walkOK (view d0) steps outs
 
-def lastStep : List Step → List StepOut → Option (Step × StepOut)
-  | [s], [o] => some (s, o)
-  | _ :: ss, _ :: os => lastStep ss os
-  | _, _ => none
+/-- some step of the walk is a successful complete `Finalize` -/
+def hasRelease : List Step → List StepOut → Bool
+  | s :: ss, o :: os => isRelease s o || hasRelease ss os
+  | _, _ => false
 
-/-- the walk ends with a successful complete `Finalize` -/
-def endsReleased (steps : List Step) (outs : List StepOut) : Bool :=
-  match lastStep steps outs with
-  | some (s, o) => s.call == .finalize && s.bpNil && o.res == .ok
-  | none => false
-
-/-- **C05 round trip**: `submit ; initialize ; (upgradeBatch | initialize | submit | finalize)* ; finalize(nil)` —
-    whatever happened in between (faults included), the workload ends released and with the user's view -/
-def roundTrip (d0 : Wl) (steps : List Step) (outs : List StepOut) : Bool :=
-  if endsReleased steps outs then
-    match lastWl (some d0) outs with
-    | some d' => released d' && view d' == trackView (view d0) steps outs
-    | none => false
-  else true
+/-- **C01 (walk bound)**: after every step the pods that may move are at most the larger of what could move
+    before the walk (`bound`) and what the steps so far allow (`stepAllow`) -/
+def walkBounded (rel : Rel) (r : Int) (bound : Int) : List Step → List StepOut → Bool
+  | s :: ss, o :: os =>
+    (match o.wl with
+     | some d' => decide (exposureW d' ≤ max bound (stepAllow rel r s))
+     | none => true) && walkBounded rel r (max bound (stepAllow rel r s)) ss os
+  | _, _ => true
 
 /-! ### C06 -/
 
